@@ -456,6 +456,9 @@ func (l *StatefulLexer) getPattern(candidate compiledRule) (*regexp.Regexp, erro
 // BackrefRegex returns a compiled regular expression with backreferences replaced by groups.
 func BackrefRegex(backrefCache *sync.Map, input string, groups []string) (*regexp.Regexp, error) {
 	key := input + "\000" + strings.Join(groups, "\000")
+	if verifEnabled {
+		verifGate("backref.load", key)
+	}
 	cached, ok := backrefCache.Load(key)
 	if ok {
 		return cached.(*regexp.Regexp), nil
@@ -484,6 +487,9 @@ func BackrefRegex(backrefCache *sync.Map, input string, groups []string) (*regex
 	}
 	if err != nil {
 		return nil, fmt.Errorf("invalid backref expansion: %q: %s", pattern, err)
+	}
+	if verifEnabled {
+		verifGate("backref.store", key)
 	}
 	backrefCache.Store(key, re)
 	return re, nil
